@@ -3,6 +3,7 @@ package graph
 import (
 	"encoding/json"
 	"strconv"
+	"strings"
 
 	"github.com/vektah/gqlparser/v2/ast"
 
@@ -27,6 +28,8 @@ var c13Families = []family{
 	// payload carries it, the merged result holds the merged selection (the groups hold nullable fields only: which
 	// group such a field belongs to when a non-null sibling fails is not settled by the property)
 	{`query($d1: Boolean!) { me { id friends { id } ... @defer(if: $d1, label: "A") { friends { name age } best { id } } ...G @defer(if: $d1, label: "B") } } fragment G on User { friends { best { id } } link { id } }`, []string{"d1"}},
+	// nullable `if:` variables (names starting with n): true, false, null and not provided - with and without a default ("if" defaults to true)
+	{`query($n1: Boolean, $n2: Boolean = false) { me { id ... @defer(if: $n1, label: "N") { best { id } } ... @defer(if: $n2, label: "M") { boss { id } friends { id } } name } }`, []string{"n1", "n2"}},
 }
 
 var c13Docs []*ast.QueryDocument
@@ -88,8 +91,19 @@ func Harness_C13_defer() {
 	vars := map[string]any{}
 	plainVars := map[string]any{}
 	for _, v := range fam.flags {
-		vars[v] = zzsym.Bool(v)
 		plainVars[v] = false
+		if strings.HasPrefix(v, "n") {
+			switch zzsym.Choice(v, 4) {
+			case 0:
+				vars[v] = true
+			case 1:
+				vars[v] = false
+			case 2:
+				vars[v] = nil
+			}
+			continue
+		}
+		vars[v] = zzsym.Bool(v)
 	}
 	w := newWorld(zzsym.Param("budget", 1), false)
 	w.gated = true
